@@ -175,6 +175,21 @@ func Check(c *Case, r *mon.R) {
 			rows = []Row{{}}
 		}
 	}
+	if c.NoNulls {
+		// a NULL operand can also be computed (1/0, an index out of range):
+		// rows on which an == between the two sides has one are not judged either
+		var nn []Row
+		for _, row := range rows {
+			if !crossEqNull(meaning, row) {
+				nn = append(nn, row)
+			}
+		}
+		rows = nn
+		if len(rows) == 0 {
+			r.Inconclusive("join_equality_null_on_every_row")
+			return
+		}
+	}
 	// reference values
 	want := make([]val.V, len(rows))
 	distinct := map[string]bool{}
@@ -265,6 +280,43 @@ func Check(c *Case, r *mon.R) {
 			r.Sample(map[string]any{"position": c.Pos, "pql": PrintExpr(Parenthesize(meaning, nil)), "sql": firstSQL, "rows": len(rows), "distinct_values": len(distinct)})
 		}
 	}
+}
+
+// sides reports which of $left / $right a tree mentions as a qualifier.
+func sides(e *E) (l, rt bool) {
+	if e.K == "name" && len(e.Parts) > 1 {
+		switch e.Parts[0].Name {
+		case "$left":
+			l = true
+		case "$right":
+			rt = true
+		}
+	}
+	for _, k := range e.Kids {
+		a, b := sides(k)
+		l, rt = l || a, rt || b
+	}
+	return
+}
+
+// crossEqNull: some == whose operands together mention both sides has a NULL
+// (or failing) operand on this row; the compiler documents a plain = there.
+func crossEqNull(e *E, row Row) bool {
+	if e.K == "bin" && e.Op == "==" {
+		if l, rt := sides(e); l && rt {
+			for _, k := range e.Kids {
+				if v := Eval(k, &EvalCtx{Row: row}); v.K == val.Null || v.K == val.Err {
+					return true
+				}
+			}
+		}
+	}
+	for _, k := range e.Kids {
+		if crossEqNull(k, row) {
+			return true
+		}
+	}
+	return false
 }
 
 // rotate regroups the first binary-under-binary pair it finds:
